@@ -352,15 +352,27 @@ func streamGoConv(o *Out, r *rand.Rand, n int, thorough bool) {
 		}
 		var got []reflect.Value
 		calls := 0
+		// some results are the zero value of their type (nil slices stay typed nils)
+		zeroRes := make([]bool, len(out))
+		for i := range zeroRes {
+			zeroRes[i] = r.Intn(3) == 0
+		}
+		resultOf := func(i int) reflect.Value {
+			t := out[i]
+			if zeroRes[i] {
+				return reflect.Zero(t)
+			}
+			if t == ifaceT {
+				return canned[t].Convert(ifaceT)
+			}
+			return canned[t]
+		}
 		fn := reflect.MakeFunc(reflect.FuncOf(in, out, variadic), func(args []reflect.Value) []reflect.Value {
 			calls++
 			got = append([]reflect.Value{}, args...)
 			res := make([]reflect.Value, len(out))
-			for i, t := range out {
-				res[i] = canned[t]
-				if t == ifaceT {
-					res[i] = canned[t].Convert(ifaceT)
-				}
+			for i := range out {
+				res[i] = resultOf(i)
 			}
 			return res
 		})
@@ -462,13 +474,23 @@ func streamGoConv(o *Out, r *rand.Rand, n int, thorough bool) {
 		case 0:
 			wantRes = "nil"
 		case 1:
-			wantRes = renderTyped(canned[out[0]])
+			wantRes = renderTyped(resultOf(0))
 		default:
 			xs := make([]string, len(out))
-			for i, t := range out {
-				xs[i] = renderTyped(canned[t])
+			for i := range out {
+				xs[i] = renderTyped(resultOf(i))
 			}
 			wantRes = "[]iface[" + strings.Join(xs, " ") + "]"
+		}
+		// every result keeps its dynamic type, nil slices included
+		if lst, ok := res.([]interface{}); ok && len(out) >= 2 && len(lst) == len(out) {
+			for i, t := range out {
+				if t.Kind() != reflect.Interface && reflect.TypeOf(lst[i]) != t {
+					o.Fail(Failure{Oracle: "all-results-return", Key: "goconv-result-type", Input: sig, Detail: fmt.Sprintf("result %d of declared type %s reached the script as %T", i, t, lst[i])})
+				}
+			}
+		} else if len(out) == 1 && out[0].Kind() != reflect.Interface && reflect.TypeOf(res) != out[0] {
+			o.Fail(Failure{Oracle: "all-results-return", Key: "goconv-result-type", Input: sig, Detail: fmt.Sprintf("the result of declared type %s reached the script as %T", out[0], res)})
 		}
 		if gotRes := renderTyped(reflect.ValueOf(res)); gotRes != wantRes {
 			o.Fail(Failure{Oracle: "all-results-return", Key: fmt.Sprintf("goconv-results:%d", len(out)), Input: sig, Detail: fmt.Sprintf("the function returned %s, the script received %s", wantRes, gotRes)})
